@@ -5,6 +5,12 @@ from core import Corr, Violation, run_driver
 from extract import pyexpr
 
 ID = "C15"
+#: functions the hand-written model transcribes: their control skeleton (extract/shape.py) is regenerated into
+#: Gen/C15.lean and compared with the literal in Properties/C15.lean (`modelled_functions_have_the_transcribed_shape`)
+SHAPES = [
+    ("shapeTransferFit", "mlinsights/mlmodel/transfer_transformer.py", "TransferTransformer.fit"),
+    ("shapeTransferInit", "mlinsights/mlmodel/transfer_transformer.py", "TransferTransformer.__init__"),
+]
 LEAN_TARGETS = ["MlVerif.Gen.C15", "MlVerif.Model.Wrappers", "MlVerif.Lemmas.Wrappers", "MlVerif.Properties.C15"]
 PROPERTY_FILE = "MlVerif/Properties/C15.lean"
 DRIVER = "Drivers/C15.lean"
@@ -52,6 +58,11 @@ def lstr(xs):
     return "[" + ", ".join('"%s"' % x for x in xs) + "]"
 
 
+def _body(fn):
+    """normalised statements of a function body (docstring dropped)"""
+    return [ast.unparse(st) for st in fn.body if not (isinstance(st, ast.Expr) and isinstance(st.value, ast.Constant))]
+
+
 def extract(ctx):
     lt = ast.parse(ctx.source(LEARNER))
     sm = pyexpr.find_function(lt, "SkBaseTransformLearner._set_method")
@@ -77,12 +88,14 @@ def extract(ctx):
             last_wins = not any(isinstance(b, ast.Break) for b in ast.walk(n))
     lfit = pyexpr.find_function(lt, "SkBaseTransformLearner.fit")
     fit_calls = [c for c in ast.walk(lfit) if isinstance(c, ast.Call) and ast.unparse(c.func) == "self.model.fit"]
-    l_fit_ok = len(fit_calls) == 1 and [ast.unparse(a) for a in fit_calls[0].args] == ["X"] and \
+    l_fit_ok = _body(lfit) == ["self.model.fit(X, y=y, **kwargs)", "return self"] and \
+        len(fit_calls) == 1 and [ast.unparse(a) for a in fit_calls[0].args] == ["X"] and \
         sorted((k.arg or "**", ast.unparse(k.value)) for k in fit_calls[0].keywords) == [("**", "kwargs"), ("y", "y")]
     l_fit_ykw = len(fit_calls) == 1 and any(k.arg == "y" for k in fit_calls[0].keywords)
     ltr = pyexpr.find_function(lt, "SkBaseTransformLearner.transform")
     src = ast.unparse(ltr)
-    reshapes = "len(res.shape) == 1" in src and "res[:, numpy.newaxis]" in src and "self.method_(X)" in src
+    # the wrappers are three-line methods: the model transcribes them statement for statement, so the whole body counts
+    reshapes = _body(ltr) == ["res = self.method_(X)", "if len(res.shape) == 1:\n    res = res[:, numpy.newaxis]", "return res"]
     lset = pyexpr.find_function(lt, "SkBaseTransformLearner.set_params")
     # is `_set_method` called on every path (a top-level statement of set_params), i.e. also when only `model` is given?
     rebinds = any(isinstance(s, ast.Expr) and isinstance(s.value, ast.Call) and ast.unparse(s.value.func) == "self._set_method"
@@ -91,12 +104,14 @@ def extract(ctx):
     st = ast.parse(ctx.source(STACKING))
     sfit = pyexpr.find_function(st, "SkBaseTransformStacking.fit")
     sf = [c for c in ast.walk(sfit) if isinstance(c, ast.Call) and ast.unparse(c.func) == "m.fit"]
-    s_fit_ok = len(sf) == 1 and [ast.unparse(a) for a in sf[0].args] == ["X"] and \
+    s_fit_ok = _body(sfit) == ["for m in self.models:\n    m.fit(X, y=y, **kwargs)", "return self"] and \
+        len(sf) == 1 and [ast.unparse(a) for a in sf[0].args] == ["X"] and \
         sorted((k.arg or "**", ast.unparse(k.value)) for k in sf[0].keywords) == [("**", "kwargs"), ("y", "y")] and \
         any(isinstance(n, ast.For) and ast.unparse(n.iter) == "self.models" for n in ast.walk(sfit))
     s_fit_ykw = len(sf) == 1 and any(k.arg == "y" for k in sf[0].keywords)
     str_ = ast.unparse(pyexpr.find_function(st, "SkBaseTransformStacking.transform"))
-    hstack = "[m.transform(X) for m in self.models]" in str_ and "numpy.hstack(Xs)" in str_
+    hstack = _body(pyexpr.find_function(st, "SkBaseTransformStacking.transform")) == \
+        ["Xs = [m.transform(X) for m in self.models]", "return numpy.hstack(Xs)"]
     sinit = pyexpr.find_function(st, "SkBaseTransformStacking.__init__")
     conv = pyexpr.find_function(sinit, "convert2transform")
     rewraps = False
@@ -131,7 +146,8 @@ def extract(ctx):
     unguarded = [c for n in tfit.body if not isinstance(n, ast.If) for c in ast.walk(n)
                  if isinstance(c, ast.Call) and ast.unparse(c.func).endswith(".fit")]
     ttr = ast.unparse(pyexpr.find_function(tt, "TransferTransformer.transform"))
-    t_transform_ok = "getattr(self.estimator_, self.method)" in ttr and "meth(X)" in ttr
+    t_transform_ok = _body(pyexpr.find_function(tt, "TransferTransformer.transform")) == \
+        ["meth = getattr(self.estimator_, self.method)", "return meth(X)"]
 
     b = lambda x: "true" if x else "false"
     body = pyexpr.HEADER + """import MlVerif.Gen.Base
@@ -800,6 +816,70 @@ def _check_real(name, fac, X, yr, copy_estimator, vs, stats):
         vs.append(Violation("TransferTransformer.fit:frozen-estimator-changed", "the frozen %s predicts differently after fit" % name, inp))
 
 
+def _dense(a):
+    import numpy
+    import scipy.sparse
+    return a.toarray() if scipy.sparse.issparse(a) else numpy.asarray(a)
+
+
+def _check_real_wrappers(vs, stats):
+    """Wrappers around real scikit-learn models whose outputs are not plain float64 matrices: members of different
+    output dtypes (labels + real predictions), sparse outputs (OneHotEncoder, a scaler fed with sparse rows)."""
+    import numpy
+    import scipy.sparse
+    from sklearn.linear_model import LinearRegression
+    from sklearn.tree import DecisionTreeClassifier
+    from sklearn.preprocessing import OneHotEncoder, MaxAbsScaler, StandardScaler
+    from sklearn.decomposition import PCA
+    from mlinsights.sklapi import SkBaseTransformLearner, SkBaseTransformStacking
+    X = numpy.array([[i % 5, (i * 7) % 11] for i in range(20)], dtype=float)
+    yc = (numpy.arange(20) % 3)
+    cases = []
+
+    def stack_case(name, members, method):
+        def run():
+            st = SkBaseTransformStacking([m() for m in members], method=method)
+            st.fit(X, yc)
+            got = st.transform(X)
+            want = numpy.hstack([_dense(numpy.asarray(getattr(m().fit(X, yc), meth)(X)).reshape(len(X), -1))
+                                 for m, meth in zip(members, [method] * len(members))])
+            return got, want
+        cases.append(("SkBaseTransformStacking.transform:not-concatenation", name, run))
+    stack_case("stacking[labels,real](predict)", [lambda: DecisionTreeClassifier(max_depth=3, random_state=0), LinearRegression], "predict")
+    stack_case("stacking[real,labels](predict)", [LinearRegression, lambda: DecisionTreeClassifier(max_depth=3, random_state=0)], "predict")
+
+    def learner_case(name, model, method, data):
+        def run():
+            le = SkBaseTransformLearner(model(), method=method)
+            le.fit(data, yc)
+            got = le.transform(data)
+            want = getattr(model().fit(data, yc), method)(data)
+            return got, want
+        cases.append(("SkBaseTransformLearner.transform:not-method-output", name, run))
+    learner_case("learner[OneHotEncoder sparse output]", OneHotEncoder, "transform", X)
+    learner_case("learner[MaxAbsScaler on sparse rows]", MaxAbsScaler, "transform", scipy.sparse.csr_matrix(X))
+    learner_case("learner[StandardScaler]", StandardScaler, "transform", X)
+    learner_case("learner[PCA float32 rows]", lambda: PCA(n_components=1), "transform", X.astype(numpy.float32))
+    for key, name, run in cases:
+        stats["evaluations"] += 1
+        stats["nontrivial"].add(("real-wrapper", name))
+        inp = {"kind": "real-wrapper", "case": name}
+        try:
+            got, want = run()
+        except Exception as e:  # noqa: BLE001
+            vs.append(Violation(key + ":raises", "%s raises %s" % (name, type(e).__name__), inp,
+                                "%s: %s" % (type(e).__name__, str(e)[:120]), "the wrapped model's output"))
+            continue
+        g, w = _dense(got), _dense(want)
+        if w.ndim == 1:
+            w = w.reshape(-1, 1)
+        if getattr(got, "shape", None) != w.shape or g.shape != w.shape or not numpy.array_equal(g.astype(float), w.astype(float)):
+            vs.append(Violation(key, "%s: transform is not what the wrapped model(s) return" % name, inp,
+                                {"shape": list(getattr(got, "shape", ())), "head": [v if isinstance(v, (int, float)) else str(v)[:40]
+                                                                                   for v in numpy.asarray(g, dtype=object).ravel()[:6].tolist()]},
+                                {"shape": list(w.shape), "head": w.ravel()[:6].tolist()}))
+
+
 def search(ctx, hints):
     ctx.shadow(need_cython=True)
     import warnings
@@ -808,6 +888,7 @@ def search(ctx, hints):
     vs = []
     stats = {"evaluations": 0, "nontrivial": set()}
     X, yr, yc, facs = real_models()
+    _check_real_wrappers(vs, stats)
     for name, fac in facs:
         for cp in (True, False):
             _check_real(name, fac, X, yr, cp, vs, stats)
@@ -836,6 +917,9 @@ def replay(ctx, item):
     inp = item["input"]
     vs = []
     stats = {"evaluations": 0, "nontrivial": set()}
+    if inp.get("kind") == "real-wrapper":
+        _check_real_wrappers(vs, stats)
+        return [v for v in vs if v.key == item["key"]][:1]
     if inp.get("kind") == "real":
         X, yr, yc, facs = real_models()
         for name, fac in facs:
